@@ -219,6 +219,9 @@ pub struct Report {
     pub solver_ms: u128,
     pub unknown_feasibility: u64,
     pub interval_decided: u64,
+    pub search_hits: u64,
+    pub search_evals: u64,
+    pub rel_decided: u64,
     pub path_cap_hit: bool,
     pub time_cap_hit: bool,
     pub solver_errors: u64,
@@ -267,6 +270,12 @@ struct Ctx {
     nodes: Vec<Node>,
     wit: Vec<Big>,
     iv: Vec<Iv>,
+    deps: Vec<u64>,
+    cons: std::collections::HashMap<(u8, (bool, u128), (bool, u128)), u32>,
+    rel: std::collections::HashMap<((bool, u128), (bool, u128)), u8>,
+    rel_decided: u64,
+    search_hits: u64,
+    search_evals: u64,
     var_ids: Vec<u32>,
     model: BTreeMap<String, u128>,
     pc: Vec<(Cond, bool)>,
@@ -296,7 +305,7 @@ struct Ctx {
 thread_local! {
     static CTX: RefCell<Ctx> = RefCell::new(Ctx {
         mode: Mode::Concrete, active: false, full: true,
-        nodes: vec![], wit: vec![], iv: vec![], var_ids: vec![], model: BTreeMap::new(),
+        nodes: vec![], wit: vec![], iv: vec![], deps: vec![], cons: std::collections::HashMap::new(), rel: std::collections::HashMap::new(), rel_decided: 0, search_hits: 0, search_evals: 0, var_ids: vec![], model: BTreeMap::new(),
         pc: vec![], asserted: 0, emitted: 0, prefix: vec![], trace: vec![], pending: vec![],
         solver: None, events: vec![], obligations: vec![], path_id: 0,
         feas_timeout_ms: 400, feas_retry_ms: 4000, prove_timeout_ms: 5000, prove_retry_ms: 30000,
@@ -385,6 +394,62 @@ fn conc(c: &Cond) -> Option<bool> {
             }
         }
         _ => None,
+    }
+}
+
+
+fn xk(x: &X) -> (bool, u128) {
+    match x {
+        SymU128::C(c) => (false, *c),
+        SymU128::S(i) => (true, *i as u128),
+    }
+}
+/// structural key for hash-consing (commutative operators with ordered operands)
+fn cons_key(n: &Node) -> Option<(u8, (bool, u128), (bool, u128))> {
+    let ord = |a: &X, b: &X| {
+        let (x, y) = (xk(a), xk(b));
+        if x <= y {
+            (x, y)
+        } else {
+            (y, x)
+        }
+    };
+    match n {
+        Node::Add(a, b) | Node::IAdd(a, b) => {
+            let (x, y) = ord(a, b);
+            Some((1, x, y))
+        }
+        Node::Mul(a, b) | Node::IMul(a, b) => {
+            let (x, y) = ord(a, b);
+            Some((2, x, y))
+        }
+        Node::Sub(a, b) => Some((3, xk(a), xk(b))),
+        Node::ISub(a, b) => Some((4, xk(a), xk(b))),
+        Node::Div(a, b) => Some((5, xk(a), xk(b))),
+        Node::IDivE(a, b) => Some((6, xk(a), xk(b))),
+        Node::Rem(a, b) => Some((7, xk(a), xk(b))),
+        Node::IModE(a, b) => Some((8, xk(a), xk(b))),
+        Node::INeg(a) => Some((9, xk(a), (false, 0))),
+        _ => None,
+    }
+}
+/// an atom as (a, b, mask) with key(a) <= key(b); mask bits: 1 a<b, 2 a=b, 4 a>b
+fn atom_rel(c: &Cond) -> Option<((bool, u128), (bool, u128), u8)> {
+    let (a, b, m) = match c {
+        Cond::Lt(a, b) => (xk(a), xk(b), 1u8),
+        Cond::Le(a, b) => (xk(a), xk(b), 3u8),
+        Cond::Eq(a, b) => (xk(a), xk(b), 2u8),
+        Cond::Not(x) => {
+            let (a, b, m) = atom_rel(x)?;
+            return Some((a, b, 7 & !m));
+        }
+        _ => return None,
+    };
+    if a <= b {
+        Some((a, b, m))
+    } else {
+        let fl = (if m & 1 != 0 { 4 } else { 0 }) | (m & 2) | (if m & 4 != 0 { 1 } else { 0 });
+        Some((b, a, fl))
     }
 }
 
@@ -598,6 +663,20 @@ impl Ctx {
     }
 
     fn push_node(&mut self, n: Node) -> X {
+        let key = cons_key(&n);
+        if let Some(k) = &key {
+            if let Some(i) = self.cons.get(k) {
+                return SymU128::S(*i);
+            }
+        }
+        let x = self.push_node_raw(n);
+        if let (Some(k), SymU128::S(i)) = (key, x) {
+            self.cons.insert(k, i);
+        }
+        x
+    }
+
+    fn push_node_raw(&mut self, n: Node) -> X {
         let w = match &n {
             Node::Var { name, lo, .. } => {
                 let _ = lo;
@@ -606,9 +685,21 @@ impl Ctx {
             _ => self.weval(&n),
         };
         let iv = self.ieval(&n);
+        let dep = match &n {
+            Node::Var { .. } => {
+                let k = self.var_ids.len();
+                if k < 64 { 1u64 << k } else { u64::MAX }
+            }
+            Node::IConst(_) => 0,
+            Node::INeg(a) => self.dep(*a),
+            Node::IIte(c, a, b) => self.cdep(c) | self.dep(*a) | self.dep(*b),
+            Node::Add(a, b) | Node::Sub(a, b) | Node::Mul(a, b) | Node::Div(a, b) | Node::Rem(a, b)
+            | Node::IAdd(a, b) | Node::ISub(a, b) | Node::IMul(a, b) | Node::IDivE(a, b) | Node::IModE(a, b) => self.dep(*a) | self.dep(*b),
+        };
         self.nodes.push(n);
         self.wit.push(w);
         self.iv.push(iv);
+        self.deps.push(dep);
         SymU128::S((self.nodes.len() - 1) as u32)
     }
 
@@ -689,18 +780,30 @@ impl Ctx {
         self.flush();
         self.queries += 1;
         let q = format!("(set-option :timeout {})\n(push 1)\n(assert {})\n(check-sat)", timeout_ms, extra);
-        let s = self.solver.as_mut().unwrap();
         let t0 = Instant::now();
-        s.send(&q);
-        let r = s.read_line();
+        let r = {
+            let s = self.solver.as_mut().unwrap();
+            s.send(&q);
+            s.read_line()
+        };
         self.solver_ms += t0.elapsed().as_millis();
+        if let Ok(dir) = std::env::var("SYMX_DUMP") {
+            if t0.elapsed().as_millis() > 350 {
+                let _ = std::fs::create_dir_all(&dir);
+                let _ = std::fs::write(format!("{}/q{}-p{}-{}.smt2", dir, self.queries, self.path_id, r), self.script(extra));
+            }
+        }
+        if std::env::var("SYMX_TRACE").is_ok() {
+            let e: String = extra.chars().take(160).collect();
+            eprintln!("Q#{} path={} pc={} nodes={} {}ms {} :: {}", self.queries, self.path_id, self.pc.len(), self.nodes.len(), t0.elapsed().as_millis(), r, e);
+        }
         match r.as_str() {
             "sat" => SatRes::Sat,
             "unsat" => SatRes::Unsat,
             "unknown" | "timeout" => SatRes::Unknown,
             other => {
                 if other.starts_with("(error") {
-                    s.errors += 1;
+                    self.solver.as_mut().unwrap().errors += 1;
                     eprintln!("symrt: solver error: {}", other);
                 }
                 SatRes::Unknown
@@ -753,6 +856,187 @@ impl Ctx {
         let mut m = self.assignment();
         for (k, v) in self.model_vals() {
             m.insert(k, v);
+        }
+        m
+    }
+}
+
+
+// ------------------------------------------------------------------------------------------
+// model search by concrete evaluation: find values that keep the path condition and flip a
+// condition, without the solver (a found assignment is checked by evaluation, hence a genuine
+// model; failure to find one says nothing and the solver is asked)
+// ------------------------------------------------------------------------------------------
+impl Ctx {
+    fn dep(&self, x: X) -> u64 {
+        match x {
+            SymU128::C(_) => 0,
+            SymU128::S(i) => self.deps[i as usize],
+        }
+    }
+    fn cdep(&self, c: &Cond) -> u64 {
+        match c {
+            Cond::True | Cond::False => 0,
+            Cond::Lt(a, b) | Cond::Le(a, b) | Cond::Eq(a, b) => self.dep(*a) | self.dep(*b),
+            Cond::Not(x) => self.cdep(x),
+            Cond::And(v) | Cond::Or(v) => v.iter().fold(0, |m, x| m | self.cdep(x)),
+        }
+    }
+    /// re-evaluate all nodes with variable number `k` set to `val` (others at the witness)
+    fn eval_with(&self, k: usize, val: &Big, out: &mut Vec<Big>) {
+        let bit = if k < 64 { 1u64 << k } else { u64::MAX };
+        out.clear();
+        out.reserve(self.nodes.len());
+        let vid = self.var_ids[k] as usize;
+        for i in 0..self.nodes.len() {
+            if self.deps[i] & bit == 0 {
+                out.push(self.wit[i].clone());
+                continue;
+            }
+            if i == vid {
+                out.push(val.clone());
+                continue;
+            }
+            let v = |x: &X| -> Big {
+                match x {
+                    SymU128::C(c) => Big::from_u128(*c),
+                    SymU128::S(j) => out[*j as usize].clone(),
+                }
+            };
+            let z = Big::zero();
+            let r = match &self.nodes[i] {
+                Node::Var { .. } => self.wit[i].clone(),
+                Node::Add(a, b) | Node::IAdd(a, b) => v(a).add(&v(b)),
+                Node::Sub(a, b) | Node::ISub(a, b) => v(a).sub(&v(b)),
+                Node::Mul(a, b) | Node::IMul(a, b) => v(a).mul(&v(b)),
+                Node::Div(a, b) | Node::IDivE(a, b) => v(a).divrem_euclid(&v(b)).map(|x| x.0).unwrap_or(z),
+                Node::Rem(a, b) | Node::IModE(a, b) => v(a).divrem_euclid(&v(b)).map(|x| x.1).unwrap_or(z),
+                Node::IConst(b) => b.clone(),
+                Node::INeg(a) => v(a).neg(),
+                Node::IIte(c, a, b) => {
+                    if Self::cond_on(c, out) {
+                        v(a)
+                    } else {
+                        v(b)
+                    }
+                }
+            };
+            out.push(r);
+        }
+    }
+    fn cond_on(c: &Cond, vals: &[Big]) -> bool {
+        let v = |x: &X| -> Big {
+            match x {
+                SymU128::C(c) => Big::from_u128(*c),
+                SymU128::S(j) => vals[*j as usize].clone(),
+            }
+        };
+        match c {
+            Cond::True => true,
+            Cond::False => false,
+            Cond::Lt(a, b) => v(a) < v(b),
+            Cond::Le(a, b) => v(a) <= v(b),
+            Cond::Eq(a, b) => v(a) == v(b),
+            Cond::Not(x) => !Self::cond_on(x, vals),
+            Cond::And(l) => l.iter().all(|x| Self::cond_on(x, vals)),
+            Cond::Or(l) => l.iter().any(|x| Self::cond_on(x, vals)),
+        }
+    }
+    fn pc_holds(&self, bit: u64, vals: &[Big]) -> bool {
+        for (c, want) in &self.pc {
+            if self.cdep(c) & bit == 0 {
+                continue;
+            }
+            if Self::cond_on(c, vals) != *want {
+                return false;
+            }
+        }
+        true
+    }
+    /// search for an assignment satisfying the path condition under which `cond` evaluates to
+    /// `want`; single-variable moves from the witness with bisection toward the witness
+    fn search_model(&mut self, cond: &Cond, want: bool) -> Option<BTreeMap<String, u128>> {
+        if std::env::var("SYMX_NO_SEARCH").is_ok() {
+            return None;
+        }
+        let cd = self.cdep(cond);
+        let mut vals: Vec<Big> = vec![];
+        let nv = self.var_ids.len().min(64);
+        let mut evals = 0u64;
+        for k in 0..nv {
+            let bit = 1u64 << k;
+            if cd & bit == 0 {
+                continue;
+            }
+            let vid = self.var_ids[k] as usize;
+            let (lo, hi) = match &self.nodes[vid] {
+                Node::Var { lo, hi, .. } => (*lo, *hi),
+                _ => continue,
+            };
+            let w = self.wit[vid].to_u128().unwrap();
+            let mut cands: Vec<u128> = vec![lo, hi, w.saturating_add(1), w.saturating_sub(1)];
+            for f in [2u128, 3, 10, 100, 1000, 1_000_000, 1_000_000_000_000] {
+                cands.push(w.saturating_mul(f));
+                cands.push(w / f);
+                cands.push(w.saturating_add(w / f));
+                cands.push(w - w / f);
+            }
+            for sh in [8u32, 16, 32, 48, 64, 80, 96, 112] {
+                cands.push(1u128 << sh);
+                cands.push(w.saturating_add(1u128 << sh));
+            }
+            cands.push(0);
+            cands.push(1);
+            let mut seen = std::collections::BTreeSet::new();
+            for c0 in cands {
+                let c0 = c0.clamp(lo, hi);
+                if c0 == w || !seen.insert(c0) {
+                    continue;
+                }
+                self.eval_with(k, &Big::from_u128(c0), &mut vals);
+                evals += 1;
+                if Self::cond_on(cond, &vals) != want {
+                    continue;
+                }
+                if self.pc_holds(bit, &vals) {
+                    self.search_evals += evals;
+                    self.search_hits += 1;
+                    return Some(self.assignment_with(k, c0));
+                }
+                // cond flipped but pc broken: bisect toward the witness for the nearest flip
+                let (mut good, mut bad) = (c0, w); // good: cond == want; bad: cond != want
+                let mut steps = 0;
+                while good.abs_diff(bad) > 1 && steps < 130 {
+                    let mid = if good > bad { bad + (good - bad) / 2 } else { good + (bad - good) / 2 };
+                    self.eval_with(k, &Big::from_u128(mid), &mut vals);
+                    evals += 1;
+                    if Self::cond_on(cond, &vals) == want {
+                        good = mid;
+                    } else {
+                        bad = mid;
+                    }
+                    steps += 1;
+                }
+                self.eval_with(k, &Big::from_u128(good), &mut vals);
+                evals += 1;
+                if Self::cond_on(cond, &vals) == want && self.pc_holds(bit, &vals) {
+                    self.search_evals += evals;
+                    self.search_hits += 1;
+                    return Some(self.assignment_with(k, good));
+                }
+                if evals > 1500 {
+                    self.search_evals += evals;
+                    return None;
+                }
+            }
+        }
+        self.search_evals += evals;
+        None
+    }
+    fn assignment_with(&self, k: usize, val: u128) -> BTreeMap<String, u128> {
+        let mut m = self.assignment();
+        if let Node::Var { name, .. } = &self.nodes[self.var_ids[k] as usize] {
+            m.insert(name.clone(), val);
         }
         m
     }
@@ -869,7 +1153,28 @@ pub fn decide(cond: Cond) -> bool {
             c.interval_decided += 1;
             return b;
         }
+        // relations already fixed by earlier decisions on the same pair of terms
+        let ar = atom_rel(&cond);
+        if let Some((a, b, set)) = ar {
+            if a == b {
+                return set & 2 != 0;
+            }
+            let m = *c.rel.get(&(a, b)).unwrap_or(&7);
+            if m & set == 0 {
+                c.rel_decided += 1;
+                return false;
+            }
+            if m & !set & 7 == 0 {
+                c.rel_decided += 1;
+                return true;
+            }
+        }
         let wv = c.wcond(&cond);
+        if let Some((a, b, set)) = ar {
+            let m = *c.rel.get(&(a, b)).unwrap_or(&7);
+            let nm = if wv { m & set } else { m & !set & 7 };
+            c.rel.insert((a, b), nm);
+        }
         let pos = c.trace.len();
         c.decisions += 1;
         if pos < c.prefix.len() {
@@ -879,6 +1184,14 @@ pub fn decide(cond: Cond) -> bool {
                 std::panic::panic_any(Diverged(msg));
             }
         } else if c.full {
+            if let Some(m) = c.search_model(&cond, !wv) {
+                let mut alt = c.trace.clone();
+                alt.push(!wv);
+                c.pending.push((alt, m));
+                c.trace.push(wv);
+                c.pc.push((cond, wv));
+                return wv;
+            }
             let smt = cond_smt(&cond);
             let other = if wv { format!("(not {})", smt) } else { smt };
             let t = c.feas_timeout_ms;
@@ -931,6 +1244,12 @@ pub fn assume(cond: Cond) {
                 std::panic::panic_any(Diverged("assume replay divergence".into()));
             }
         } else if !wv {
+            if let Some(m) = c.search_model(&cond, true) {
+                let mut alt = c.trace.clone();
+                alt.push(true);
+                c.pending.push((alt, m));
+                return false;
+            }
             let smt = cond_smt(&cond);
             let t = c.feas_retry_ms;
             let r = c.check(&smt, t);
@@ -1103,6 +1422,9 @@ pub fn explore<F: Fn()>(f: F, opts: Opts) -> Report {
         c.solver_ms = 0;
         c.unknown_feasibility = 0;
         c.interval_decided = 0;
+        c.search_hits = 0;
+        c.rel_decided = 0;
+        c.search_evals = 0;
         c.decisions = 0;
         c.vars_seen.clear();
         c.obligations.clear();
@@ -1121,6 +1443,9 @@ pub fn explore<F: Fn()>(f: F, opts: Opts) -> Report {
             c.nodes.clear();
             c.wit.clear();
             c.iv.clear();
+            c.deps.clear();
+            c.cons.clear();
+            c.rel.clear();
             c.var_ids.clear();
             c.model = model;
             c.full = true;
@@ -1186,6 +1511,9 @@ pub fn explore<F: Fn()>(f: F, opts: Opts) -> Report {
         rep.solver_ms = c.solver_ms;
         rep.unknown_feasibility = c.unknown_feasibility;
         rep.interval_decided = c.interval_decided;
+        rep.search_hits = c.search_hits;
+        rep.rel_decided = c.rel_decided;
+        rep.search_evals = c.search_evals;
         rep.decisions = c.decisions;
         rep.obligations = c.obligations.drain(..).collect();
         rep.vars = c.vars_seen.clone();
